@@ -20,7 +20,9 @@ RULE = ("random histories (<= 25 container ops after a set-up prefix) over 2-4 n
         "namespaces, both import strategies; the taxon_namespace property setter on Tree/TreeList/CharacterMatrix (with "
         "automigrate_taxon_namespace_on_assignment, and plain followed by update_taxon_namespace()), CharacterMatrix add/replace/update/"
         "extend_sequences/extend_matrix with a matrix of the same or another namespace (the refusal is compared), purge_taxon_namespace of an "
-        "object that is the only user of its namespace, slice assignment from a one-shot generator, positions also written as negative indices and pop() without argument; thorough adds every depth<=3 history over a fixed small world; "
+        "object that is the only user of its namespace, relabelling histories (a looked-up member of a namespace is relabelled by attribute "
+        "assignment to a fresh label / another member's label / a case variant, then foreign trees and matrices carrying the old and the new label "
+        "are migrated in; oracle only, labels are constant in the model), slice assignment from a one-shot generator, positions also written as negative indices and pop() without argument; thorough adds every depth<=3 history over a fixed small world; "
         "non-trivial = at least two namespaces are involved in a migrating/cloning/reading step")
 MODELLED_NOT_VERIFIED = [
     "C11: the Lean store model (namespaces = ordered member lists + case flag; trees = namespace ref + pre-order taxon refs; matrices = "
@@ -35,6 +37,8 @@ MODELLED_NOT_VERIFIED = [
     "C11: purge_taxon_namespace is documented to look at `self` only; it is modelled and compared, generated only where the purging object is "
     "the sole user of its namespace (decided by the harness from the real objects), and is outside the model's `valid` (theorem purge_closed "
     "carries the sole-user hypothesis)",
+    "C11: Taxon.label assignment (relabelling) is not in the model's alphabet (labels are constant there): histories containing it are judged "
+    "by the oracle only (closure + label map with the labels as they are at migration time), not compared with the model",
     "C11: ownership precondition - an operation that re-binds a tree (matrix, tree list) which is at that moment a member of ANOTHER "
     "collection bound to a different namespace is outside the statement (documented: originals are migrated); histories never do it and the "
     "theorems carry it as the decidable hypothesis `Valid`",
@@ -319,6 +323,20 @@ def apply_op(w, op):
                 w.reg_tree(t)
         else:
             tl[op[2]:op[3]] = [w.trees[t] for t in op[5]]
+    elif k == "lookup":
+        # something that looks the taxon up by label (and so may fill any per-taxon cache of a derived key)
+        ns = w.nss[op[1]]
+        t = ns._taxa[op[2]]
+        if op[3] == "get":
+            ns.get_taxon(t.label)
+        elif op[3] == "has":
+            ns.has_taxon_label(t.label)
+        elif op[3] == "require":
+            ns.require_taxon(t.label)
+        else:
+            t.lower_cased_label
+    elif k == "relabel":
+        w.nss[op[1]]._taxa[op[2]].label = op[3]          # plain attribute assignment
     elif k == "setslicegen":
         # a one-shot iterable as the operand: consumed by the import pass, nothing is left for the assignment
         w.lists[op[1]][op[2]:op[3]] = (w.trees[t] for t in op[4])
@@ -1166,7 +1184,8 @@ def run_history(ctx, dp, hist, pending, origin="random"):
     for s in statuses:
         if s != "ok":
             ctx.count("status:" + s)
-    pending.append((used, states, statuses, failed))
+    if not any(op[0] in ORACLE_ONLY for op in used):
+        pending.append((used, states, statuses, failed))      # labels never change in the model's alphabet: relabelling histories are oracle-only
     return failed is None
 
 
@@ -1550,6 +1569,68 @@ def random_op(rng, w, allow_known=False):
     return None
 
 
+ORACLE_ONLY = ("lookup", "relabel")
+
+
+def relabel_history(rng):
+    """a member of a case-insensitive namespace is looked up (directly or by an earlier migration), then relabelled by attribute assignment
+    (to a fresh label / another member's label / a case variant), then trees and matrices of a foreign namespace carrying the OLD and the NEW
+    label are migrated in; the label-map oracle judges with the labels as they are at migration time"""
+    pool = ["A", "B", "C", "D", "E", "Ab", "x y", "c_1"]
+    k = rng.randint(1, 4)
+    labs0 = rng.sample(pool, k)
+    i = rng.randrange(k)
+    old = labs0[i]
+    mode = rng.choice(["fresh", "fresh", "other", "case"]) if k > 1 else rng.choice(["fresh", "case"])
+    new = {"fresh": rng.choice(["Q", "Zed", "new one", "q"]), "other": labs0[(i + 1) % k], "case": old.swapcase()}[mode]
+    foreign = [old, new] + [x for x in rng.sample(pool, 2) if x not in (old, new)]
+    nf = len(foreign)
+    hist = [["ns", 1 if rng.random() < 0.15 else 0, labs0], ["ns", 1 if rng.random() < 0.5 else 0, foreign]]
+    trees = [[0, 1], [1, 0], [0], [1], [None, 0, rng.randrange(nf), 1]]
+    rng.shuffle(trees)
+    trees = trees[:rng.randint(2, 5)]
+    for tx in trees:
+        hist.append(["tree", 1, tx, [-1] + [0] * (len(tx) - 1)])
+    hist.append(["tree", 1, [0], [-1]])                      # tree len(trees): carries the old label, for an EARLIER migration
+    early = len(trees)
+    hist += [["mat", 1, [rng.choice([0, 1])] + ([2] if nf > 2 and rng.random() < 0.5 else [])], ["tlist", 0], ["tlist", 1]]
+    # (1) look-ups before the relabelling
+    for j in range(k):
+        if j == i or rng.random() < 0.4:
+            for how in rng.sample(["get", "has", "require", "lower"], rng.randint(1, 2)):
+                hist.append(["lookup", 0, j, how])
+    if rng.random() < 0.5:
+        hist.append(["append", 0, early, "migrate"])
+    # (2) the relabelling
+    hist.append(["relabel", 0, i, new])
+    if rng.random() < 0.3:
+        hist.append(["lookup", 0, i, rng.choice(["get", "has", "lower"])])
+    # (3) foreign objects carrying old and new labels are migrated in
+    later = []
+    free = list(range(len(trees)))
+    rng.shuffle(free)
+    in_list1 = []
+    for t in free:
+        r = rng.random()
+        if r < 0.35:
+            later.append(["append", 0, t, "migrate"])
+        elif r < 0.55:
+            later.append(["insert", 0, 0, t, "migrate"])
+        elif r < 0.7:
+            later.append(["tmig", t, 0, 1])
+        elif r < 0.8:
+            later.append(["tassign", t, 0, 1])
+        else:
+            in_list1.append(t)
+    if in_list1:
+        later += [["append", 1, t, "migrate"] for t in in_list1] + [[rng.choice(["lmig", "lassign"]), 1, 0, 1]]
+    later.append(rng.choice([["mmig", 0, 0, 1], ["massign", 0, 0, 1], ["mclone", 0, 0]]))
+    rng.shuffle(later)
+    if in_list1:   # the list migration after its appends
+        later = [x for x in later if x[0] not in ("lmig", "lassign")] + [x for x in later if x[0] in ("lmig", "lassign")]
+    return hist + later
+
+
 def random_history(ctx, dp, rng, pending, nops, allow_known):
     """generate and execute step by step (generation looks at the real world to stay inside the precondition)"""
     g = Gen(rng, dp)
@@ -1588,6 +1669,8 @@ def run(ctx):
         ctx.note("known finding %s is not registered: histories re-binding a tree held by another list are not generated" % SHARED_ID)
     for hist in TARGETED:
         run_history(ctx, dp, hist, pending, "targeted")
+    for _ in range(ctx.pick(250, 3000)):
+        run_history(ctx, dp, relabel_history(rng), pending, "relabel")
     n = ctx.pick(3500, 60000)
     for i in range(n):
         if ctx.out_of_time():
@@ -1777,6 +1860,10 @@ def search(ctx, broken):
         if ctx.failures:
             break
         run_history(ctx, dp, hist, pending, "search")
+    for _ in range(300):
+        if ctx.failures:
+            break
+        run_history(ctx, dp, relabel_history(ctx.rng), pending, "search")
     n = ctx.pick(400, 4000)
     for _ in range(n):
         if ctx.failures or ctx.out_of_time():
